@@ -106,8 +106,10 @@ def make_case(parts, docs, datum=None, multi=None, from_specs=False):
 
 
 def generate(rng, n, tier):
+    from props import corners
+    _corner = corners.to_part_specs_cases()
     g = Gen(rng, pct_strings=False, max_depth=3)
-    cases = []
+    cases = list(_corner)
     bare = lambda k: (k, {"key": None, "index": None, "value": None, "condition": None, "list_condition": None, "map_condition": None, "label": None})  # noqa: E731
     corpus = [
         [("prim", "a"), ("prim", 0)], [("prim", "a"), bare("map")], [bare("list"), ("prim", "x")], [bare("molv")],
